@@ -11,7 +11,7 @@ import GoomVerif.Model.ConvertNow
 
     box     := nil | <type> <payload>
     payload := b0|b1 | i<int> | u<nat> | f<bits> | c <re> <im> | s<hex|-> | z | r<id> | agg <n> payload*n | inil | iof <type> payload
-    Ty      := p.<prim> | arr <n> Ty | slice Ty | map Ty Ty | ptr Ty | chan <dir> Ty | func <sig> | strct <n> (<fname> Ty)*n
+    Ty      := p.<prim> | arr <n> Ty | slice Ty | map Ty Ty | ptr Ty | chan <dir> Ty | func <sig> | strct <nv> m*nv <np> m*np <n> (<fname> Ty)*n
              | iface <n> m*n | named <name> <nv> m*nv <np> m*np Ty -/
 namespace Drv.C09
 open Convert
@@ -56,10 +56,13 @@ def parseTy : Nat → P Ty
       pure (.chan dir e, r)
     | "func" :: sig :: rest => some (.func sig, rest)
     | "iface" :: rest => do let (ms, r) ← parseStrList rest; pure (.iface ms, r)
-    | "strct" :: n :: rest => do
+    | "strct" :: rest => do
+      let (vms, r1) ← parseStrList rest
+      let (pms, r2) ← parseStrList r1
+      let n ← r2.head?
       let k ← n.toNat?
-      let (fs, r) ← parseTys fuel k rest
-      pure (.strct fs, r)
+      let (fs, r) ← parseTys fuel k r2.tail
+      pure (.strct vms pms fs, r)
     | "named" :: name :: rest => do
       let (vms, r1) ← parseStrList rest
       let (pms, r2) ← parseStrList r1
@@ -262,6 +265,41 @@ def run (toks : List String) : Option String := do
     let (g, r2) ← parseGroup tbl fuel r1
     if !r2.isEmpty then none else
     pure (callStr tbl (matchesE2E K g types))
+  | "c09.meth" :: _ :: out :: no :: rest =>
+    -- Return(values...) on a method mock / interface-variable mock: same conversion path as `c09.ret`
+    let o ← tbl.lookup out
+    let n ← no.toNat?
+    let (objs, r2) ← parseBoxes tbl fuel n rest
+    if !r2.isEmpty then none else
+    pure (callStr tbl (returnE2E K objs [o]))
+  | "c09.in" :: p1 :: p2 :: kk :: rest =>
+    -- one arg.In(values...) used for two declared parameter types: each use converts every value at ITS declared type
+    let t1 ← tbl.lookup p1
+    let t2 ← tbl.lookup p2
+    let k ← kk.toNat?
+    let (objs, r2) ← parseBoxes tbl fuel k rest
+    if !r2.isEmpty then none else
+    let one := fun (t : Ty) => match whenConfigure K (objs.map (fun b => (b, t))) with
+      | .error e => "cfgpanic:" ++ failClass e
+      | .ok _ => "ok"
+    pure s!"t1={one t1} t2={one t2}"
+  | "c09.when2" :: a :: b :: rest =>
+    let ta ← tbl.lookup a
+    let tb ← tbl.lookup b
+    let (ba, r1) ← parseBox tbl fuel rest
+    let (bb, r2) ← parseBox tbl fuel r1
+    if !r2.isEmpty then none else
+    match whenConfigure K [(ba, ta), (bb, tb)] with
+    | .error e => pure ("cfgpanic:" ++ failClass e)
+    | .ok _ => pure "ok"
+  | "c09.whenv" :: e :: kk :: rest =>
+    let te ← tbl.lookup e
+    let k ← kk.toNat?
+    let (objs, r2) ← parseBoxes tbl fuel k rest
+    if !r2.isEmpty then none else
+    match whenConfigure K (objs.map (fun b => (b, te))) with
+    | .error e => pure ("cfgpanic:" ++ failClass e)
+    | .ok _ => pure "ok"
   | "c09.seq" :: nt :: rest =>
     let k ← nt.toNat?
     let (types, r1) ← parseTypes tbl k rest
@@ -310,7 +348,11 @@ def run (toks : List String) : Option String := do
 
 def handle (toks : List String) : Option String :=
   match toks with
-  | t :: _ => if t.startsWith "c09." then some ((run toks).getD "bad-op") else none
+  | t :: rest =>
+    if t == "c09.whenseq" || t == "c09.whenand" then
+      -- When(1).Returns(g…) / When(1).Return(g₁).AndReturn(g₂)…: the same conversion and cursor as `c09.seq`
+      some ((run ("c09.seq" :: rest)).getD "bad-op")
+    else if t.startsWith "c09." then some ((run toks).getD "bad-op") else none
   | [] => none
 
 end Drv.C09
